@@ -9,6 +9,8 @@
           cancel=<j|->           the message context ends during call j
           ctxend=<call|pre|deadline|->   how (cancel() inside the call / cancelled before Retry is invoked / a deadline falls)
           sleep=<j>:<ns>|-       call j sleeps (only the harness uses it)
+          pass=<P>:<i>|-         the same message object is handled P times in a row, this is pass i (harness only: every pass
+                                 has to behave like the first – the caller does not touch the message or its context in between)
           conc=<M>:<i>:<ns>|-    the message is number i of M sent concurrently through one middleware instance (harness only:
                                  every message has to behave as if it were alone)
           n=<calls> d=<delays reported to OnRetryHook, in call order | -> ts=<start of call i>,… te=<end of call i>,… tr=<return> tq=<ns|->
@@ -77,7 +79,7 @@ def outcomesOf (s : String) : Option (List Outcome) :=
 
 def parseReq (toks : List String) : Option Req :=
   match toks with
-  | [mr, ini, mx, mul, rf, el, hk, lg, outs, cancel, ctxend, _sleep, conc, n, d, ts, te, tr, tq] => do
+  | [mr, ini, mx, mul, rf, el, hk, lg, outs, cancel, ctxend, _sleep, conc, pass, n, d, ts, te, tr, tq] => do
     let mr ← (← kv "mr" mr).toInt?
     let ini ← (← kv "init" ini).toNat?
     let mx ← (← kv "max" mx).toNat?
@@ -101,6 +103,11 @@ def parseReq (toks : List String) : Option Req :=
     if cc ≠ "-" then
       match (cc.splitOn ":").mapM String.toNat? with
       | some [m, i, _] => if m < 2 || i ≥ m then none
+      | _ => none
+    let ps ← kv "pass" pass
+    if ps ≠ "-" then
+      match (ps.splitOn ":").mapM String.toNat? with
+      | some [m, i] => if m < 2 || i ≥ m then none
       | _ => none
     let n ← (← kv "n" n).toNat?
     let d ← intList (← kv "d" d)
